@@ -447,6 +447,18 @@ type collectSrv struct {
 }
 
 func (c *collectSrv) Send(r *storepb.SeriesResponse) error {
+	// A gRPC stream marshals the message inside Send; afterwards the store is free to reuse the
+	// buffers the message points into (pooled chunk bytes). Do the same, or frames decoded after
+	// the call would alias recycled memory.
+	b, err := r.Marshal()
+	if err != nil {
+		return err
+	}
+	cp := &storepb.SeriesResponse{}
+	if err := cp.Unmarshal(b); err != nil {
+		return err
+	}
+	r = cp
 	c.mu.Lock()
 	c.frames = append(c.frames, r)
 	c.mu.Unlock()
@@ -483,6 +495,9 @@ func decodeSeries(s *storepb.Series, skipChunks bool) (gotSeries, error) {
 		smp, err := decodeSamples(ch)
 		if err != nil {
 			return gs, fmt.Errorf("chunk [%d,%d] does not decode: %v", c.MinTime, c.MaxTime, err)
+		}
+		if len(smp) == 0 && os.Getenv("VERIF_DEBUG_CHUNK") != "" {
+			fmt.Fprintf(os.Stderr, "DEBUG zero-sample chunk [%d,%d] len=%d data=%x hash=%d\n", c.MinTime, c.MaxTime, len(c.Raw.Data), c.Raw.Data, c.Raw.Hash)
 		}
 		gs.Chunks = append(gs.Chunks, refChunk{MinT: c.MinTime, MaxT: c.MaxTime, Samples: smp})
 	}
@@ -705,11 +720,11 @@ func (g *gateway) counter(name string) int {
 // reachProbes records rare branches reached inside the store (from its own metrics).
 func (g *gateway) reachProbes() {
 	for probe, metric := range map[string]string{
-		"gw.lazy_expanded_postings":   "thanos_bucket_store_lazy_expanded_postings_total",
-		"gw.series_refetches":         "thanos_bucket_store_series_refetches_total",
-		"gw.chunk_refetches":          "thanos_bucket_store_chunk_refetches_total",
-		"gw.indexheader_lazy_loads":   "thanos_bucket_store_indexheader_lazy_load_total",
-		"gw.empty_postings":           "thanos_bucket_store_empty_postings_total",
+		"gw.lazy_expanded_postings": "thanos_bucket_store_lazy_expanded_postings_total",
+		"gw.series_refetches":       "thanos_bucket_store_series_refetches_total",
+		"gw.chunk_refetches":        "thanos_bucket_store_chunk_refetches_total",
+		"gw.indexheader_lazy_loads": "thanos_bucket_store_indexheader_lazy_load_total",
+		"gw.empty_postings":         "thanos_bucket_store_empty_postings_total",
 	} {
 		if n := g.counter(metric); n > 0 {
 			g.x.ProbeN(probe, n)
